@@ -464,6 +464,17 @@ def main(tier, seed, replay=None):
     if mach:
         raise Machinery(mach[0]['what'])
     acc, diag, res = validate_traces('TracePeps', 'TracePeps.cfg', traces, shards=16, timeout=3000, mem='4g')
+    if not replay:
+        from vlib import negative_controls
+        def c_apply(e):
+            if e['op'] == 'apply' and e['ent']:
+                e['ent'][0][2] += 1
+                return True
+        def c_same(e):
+            if e['op'] == 'same' and e['x']:
+                e['x'][0][2] += 1
+                return True
+        rep.cov['parts']['negative_controls_rejected'] = negative_controls('TracePeps', 'TracePeps.cfg', traces, [('amplitude after a gate + 1', c_apply), ('DoublePepsTensor entry + 1', c_same)], timeout=900, mem='4g')
     for t, rj in zip(traces, validate_traces.last_rejects):
         for l, why in rj[:2]:
             e = t['ev'][l - 1]
